@@ -215,7 +215,7 @@ Section Closure.
   Lemma P_rsp_rest pa rid pid cc enc sessions v hp : P (rsp_rest T abort pa rid pid cc enc sessions v hp).
   Proof.
     unfold rsp_rest.
-    destruct (match cc with Some c => lookupZ c (rsp_params T) | None => None end) as [pty|]; [|apply (c_internal C)].
+    destruct (match cc with Some c => lookupZ c (rsp_params T) | None => None end) as [pty|]; [|unfold rsp_no_cc; destruct cc; apply (c_fail C)].
     apply P_try_field; [apply P_dec_ty|apply (c_ret C)|]. intros pv.
     apply (c_bind C); [destruct hp; [apply (c_assert_done C)|apply (c_ret C)]|]. intros _.
     destruct sessions; [|apply P_rsp_finish].
@@ -237,7 +237,7 @@ Section Closure.
     apply (c_bind C); [apply (c_set_constraint C)|]. intros _.
     apply P_try_field; [apply (c_prim C)|apply (c_ret C)|]. intros rcv.
     destruct (match as_int rcv with Some z => negb (z =? rc_success T) | None => true end); [apply P_rsp_finish|].
-    destruct (match cc with Some c => lookupZ c (rsp_handles T) | None => None end) as [hty|]; [|apply (c_internal C)].
+    destruct (match cc with Some c => lookupZ c (rsp_handles T) | None => None end) as [hty|]; [|unfold rsp_no_cc; destruct cc; apply (c_fail C)].
     apply P_try_field; [apply P_dec_ty|apply (c_ret C)|]. intros hv.
     destruct (match as_int tagv with Some z => z =? st_sessions T | None => false end).
     - apply P_try_field; [apply (c_prim C)|apply (c_ret C)|]. intros psv.
